@@ -965,10 +965,10 @@ where
 {
     let kind = pick_kind(r, o.only_planner);
     let q = |x: f64| (x * 64.0).round() / 64.0; // dyadic parameters: identical in Python and Rust
-    let params = Params {
+    let mut params = Params {
         kind,
         maxd: q(extent * *r.pick(&[0.05, 0.1, 0.2, 0.5])).max(1.0 / 64.0),
-        bias: *r.pick(&[0.0, 0.0625, 0.25]),
+        bias: *r.pick(&[0.0, 0.0625, 0.25, 0.5, 1.0]),
         radius: q(extent * *r.pick(&[0.15, 0.3, 0.6])).max(1.0 / 64.0),
         // seeds over the whole u64 range: small, above 2^53 (not representable as a double), around 2^63, 2^64-1
         seed: Some(match r.below(6) {
@@ -993,6 +993,11 @@ where
             h.push(c + w / 2.0);
         }
         boxes.push(BoxObs { lo: l, hi: h });
+    }
+    // goal_bias = 1 (always steer at the goal) only in free worlds: behind an obstacle the greedy planner spins through
+    // millions of rejected extensions until its real-time limit, which these unbudgeted mirrored runs cannot replay
+    if params.bias == 1.0 && (!boxes.is_empty() || o.faults) {
+        params.bias = 0.5;
     }
     // C20: a fault region (a box in the same coordinates) on which the Python callback raises / returns None /
     // returns a non-bool; the Rust mirror (and the model) treat it as invalid
@@ -1125,7 +1130,7 @@ where
 
 pub fn build_py_rv(r: &mut Sm, o: &GenOpts) -> Scenario<RealVectorState, RealVectorStateSpace> {
     let mut space = RealVectorStateSpace::new(2, Some(vec![(0.0, 10.0), (0.0, 10.0)])).unwrap();
-    let fr = *r.pick(&[0.05, 0.05, 0.03125, 0.125, 0.5]);
+    let fr = *r.pick(&[0.05, 0.05, 0.03125, 0.125, 0.5, 4.0]);
     space.set_longest_valid_segment_fraction(fr);
     let kit = PyKit {
         flat: Arc::new(|s: &RealVectorState| s.values.clone()),
@@ -1141,7 +1146,7 @@ pub fn build_py_rv(r: &mut Sm, o: &GenOpts) -> Scenario<RealVectorState, RealVec
 
 pub fn build_py_so2(r: &mut Sm, o: &GenOpts) -> Scenario<SO2State, SO2StateSpace> {
     let mut space = SO2StateSpace::new(None).unwrap();
-    let fr = *r.pick(&[0.05, 0.05, 0.03125, 0.125, 0.5]);
+    let fr = *r.pick(&[0.05, 0.05, 0.03125, 0.125, 0.5, 4.0]);
     space.set_longest_valid_segment_fraction(fr);
     let kit = PyKit {
         flat: Arc::new(|s: &SO2State| vec![s.value]),
@@ -1157,7 +1162,7 @@ pub fn build_py_so2(r: &mut Sm, o: &GenOpts) -> Scenario<SO2State, SO2StateSpace
 
 pub fn build_py_so3(r: &mut Sm, o: &GenOpts) -> Scenario<SO3State, SO3StateSpace> {
     let mut space = SO3StateSpace::new(None).unwrap();
-    let fr = *r.pick(&[0.05, 0.05, 0.03125, 0.125, 0.5]);
+    let fr = *r.pick(&[0.05, 0.05, 0.03125, 0.125, 0.5, 4.0]);
     space.set_longest_valid_segment_fraction(fr);
     let kit = PyKit {
         flat: Arc::new(|s: &SO3State| vec![s.x, s.y, s.z, s.w]),
@@ -1167,6 +1172,10 @@ pub fn build_py_so3(r: &mut Sm, o: &GenOpts) -> Scenario<SO3State, SO3StateSpace
         }),
         mk: Arc::new(|r: &mut Sm| {
             let q = quat_from(r);
+            // one state in five is a non-unit quaternion (twice a unit one: exact in binary floating point); the core
+            // stores whatever it is given, and so must the Python layer
+            let k = if r.chance(0.2) { 2.0 } else { 1.0 };
+            let q = SO3State::new(q.x * k, q.y * k, q.z * k, q.w * k);
             (q.clone(), vec![q.x, q.y, q.z, q.w])
         }),
     };
@@ -1212,7 +1221,7 @@ pub fn build_py_css(r: &mut Sm, o: &GenOpts) -> Scenario<CompoundState, Compound
     let mut r2 = RealVectorStateSpace::new(2, Some(vec![(0.0, 10.0), (0.0, 10.0)])).unwrap();
     let mut so2 = SO2StateSpace::new(None).unwrap();
     // the resolution fractions are set on the subspaces BEFORE they are composed (Python: same calls, same order)
-    let (fr1, fr2) = (*r.pick(&[0.05, 0.05, 0.03125, 0.125, 0.5]), *r.pick(&[0.05, 0.05, 0.03125, 0.125, 0.5]));
+    let (fr1, fr2) = (*r.pick(&[0.05, 0.05, 0.03125, 0.125, 0.5, 4.0]), *r.pick(&[0.05, 0.05, 0.03125, 0.125, 0.5, 4.0]));
     r2.set_longest_valid_segment_fraction(fr1);
     so2.set_longest_valid_segment_fraction(fr2);
     let subs: Vec<Box<dyn AnyStateSpace>> = vec![Box::new(r2), Box::new(so2)];
